@@ -31,7 +31,7 @@ func (c08) Probes() []string {
 }
 func (c08) Runs(tier string) int {
 	if tier == "thorough" {
-		return 20000
+		return 5000
 	}
 	return 2400
 }
